@@ -46,7 +46,12 @@ MANIFEST = {
              'branch of TypeBlocks.resize_blocks (reindex), shift / roll, fillna families across block boundaries, clip with containers, astype maps, every operand kind of binary operators '
              'incl. reflected and matmul, 1-D and 2-D set operations (identical / other dtype / empty / list / set / array operands), searchsorted past the end, accessors on object cells and '
              '2-D blocks, bloc assignment with partial Frames, depth-3 IndexHierarchyGO appends, from_records / from_items / from_fields / from_concat / from_delimited / from_sql variants, '
-             'sorts, inserts, joins, pivots, by-blocks assignment over 2-D blocks, reductions on object / empty frames, equals branches, unsigned / bytes / timedelta / 1-wide 2-D blocks.'),
+             'sorts, inserts, joins, pivots, by-blocks assignment over 2-D blocks, reductions on object / empty frames, equals branches, unsigned / bytes / timedelta / 1-wide 2-D blocks; '
+             '(6) caller isolation: 19 array-taking routes x consolidate_blocks unset / True / False x 7 adjacent-dtype patterns x columns supplied as views of larger writeable arrays '
+             '(2-D column, slice, Fortran order), as owners, and as owners with an earlier view: the caller arrays keep their flags, no result array overlaps the caller base, and a write '
+             'through the BASE arrays changes neither the result nor sub-Frames / Series / FrameHE derived from it; in every api stratum the writeable flag of each caller array is recorded '
+             'BEFORE the call (a call that freezes the argument in place is a violation, and aliasing is checked against the pre-call flag and against writeable bases), and half of the '
+             'pooled writeable arrays are views of larger arrays.'),
     'note': ('trusted: Coq kernel, hand-written model SF/Heap.v (tied to the code by the trace correspondence), AST extractor generate() in this module, '
              'harness. NumPy facts are modelling assumptions validated only by the correspondence runs. PARTIAL: that each of the ~160 freeze sites '
              'follows the protocol is decided by the enumeration (Python-side observation, argument pools sampled in rotation) and by the census '
@@ -858,6 +863,16 @@ def probe_absent(obj, labels):
     return None
 
 
+def _base_writeable(a):
+    '''Some array this one is a view of is writeable (the caller can write the same memory through it).'''
+    b = a.base
+    while isinstance(b, np.ndarray):
+        if b.flags.writeable:
+            return True
+        b = b.base
+    return False
+
+
 def _slots_of(obj):
     names = []
     for cls in type(obj).__mro__:
@@ -1092,9 +1107,19 @@ class Recv:
         self.mutators = set() if self.static else {'append', 'extend', 'extend_items', '__setitem__'}
 
 
+_WARR_N = [0]
+
+
 def _warr(vals, dtype=None):
-    '''A fresh WRITEABLE caller array.'''
-    return np.array(vals, dtype=dtype)
+    '''A fresh WRITEABLE caller array; every other one is a VIEW (a column) of a larger writeable array the caller also holds.'''
+    a = np.array(vals, dtype=dtype)
+    _WARR_N[0] += 1
+    if _WARR_N[0] % 2 and a.ndim == 1 and a.size:
+        base = np.empty((a.shape[0], 2), dtype=a.dtype)
+        base[:, 0] = a
+        base[:, 1] = a
+        return base[:, 0]
+    return a
 
 
 def key_pool(R, tail, rng):
@@ -1596,6 +1621,7 @@ class Explorer:
     def perform(self, path, text, thunk, held=(), mutator=False):
         """Run one call; `held`: [(text, array)] every ndarray the caller passed in. Returns (ok, result)."""
         ps = render(path)
+        held_w = [(ctext, c, bool(c.flags.writeable), _base_writeable(c)) for ctext, c in held]
         try:
             with _time_limit(10):
                 result = thunk()
@@ -1633,11 +1659,15 @@ class Explorer:
                     self.flag(ps, check, text, f'array at {apath} (dtype {a.dtype}, shape {a.shape}) is writeable'
                               + (' and is held by a returned container' if inside else '') + (' and shares memory with a live container' if alias else ''))
             if inside and 'alias' not in seen_kind:
-                for ctext, c in held:
-                    if c.flags.writeable and np.may_share_memory(a, c) and np.shares_memory(a, c):
+                for ctext, c, was_w, base_w in held_w:
+                    if (was_w or base_w) and 'own_data=True' not in text and np.may_share_memory(a, c) and np.shares_memory(a, c):
                         seen_kind.add('alias')
                         self.flag(ps, 'no-caller-alias', text, f'array at {apath} of the returned container shares memory with the writeable caller array {ctext}: later writes by the caller show through')
                         break
+        for ctext, c, was_w, base_w in held_w:
+            if was_w and not c.flags.writeable and 'own_data=True' not in text and 'own_' not in text:
+                self.flag(ps, 'no-caller-alias', text, f'the call set flags.writeable = False on the caller array {ctext} (a caller array is either already read-only or copied)')
+                break
         return ok, result
 
     def call(self, path, fn, node_depth):
@@ -1965,6 +1995,7 @@ def large_phase_cases(ctx, rows, when):
 def enumeration_cases(ctx):
     rng = ctx.rng
     ROT.clear()
+    _WARR_N[0] = 0
     tmp = tempfile.mkdtemp(prefix='c01_')
     budget = max(1, int((3 if ctx.tier == 'quick' else 8) * min(ctx.scale, 3)))
     import warnings
@@ -2349,7 +2380,7 @@ class RouteEnv:
     '''One scripted route: receivers registered with reg() must not change, arrays registered with arr() are caller-held.'''
 
     def __init__(self):
-        self.receivers, self.held = [], []
+        self.receivers, self.held, self.was_w = [], [], {}
 
     def reg(self, obj):
         self.receivers.append(obj)
@@ -2357,6 +2388,7 @@ class RouteEnv:
 
     def arr(self, a):
         self.held.append(a)
+        self.was_w[id(a)] = (bool(a.flags.writeable), _base_writeable(a))
         return a
 
 
@@ -2706,6 +2738,7 @@ def route_cases(ctx):
                 with _time_limit(20):
                     result = fn(env)
                 raised = None
+                held_w = None
             except AssertionError as ex:
                 result, raised = None, 'AssertionError'
                 if 'C01-VIOLATION' in str(ex):
@@ -2726,10 +2759,10 @@ def route_cases(ctx):
                             why = f'array at {apath} (dtype {a.dtype}, shape {a.shape}) is writeable' + (' and is held by a returned container' if inside else ' and shares memory with a receiver')
                             break
                         bare.append(apath)
-                    if inside:
+                    if inside and 'own_data=True' not in name:
                         for c in env.held:
-                            if c.flags.writeable and np.may_share_memory(a, c) and np.shares_memory(a, c):
-                                why = f'array at {apath} of the returned container shares memory with a writeable caller array'
+                            if any(env.was_w[id(c)]) and np.may_share_memory(a, c) and np.shares_memory(a, c):
+                                why = f'array at {apath} of the returned container shares memory with a caller array that is (or whose base is) writeable'
                                 break
                     if why:
                         break
@@ -2747,6 +2780,10 @@ def route_cases(ctx):
                     why = 'a write into a caller-held argument array after the call shows through the returned container'
             if why is None and [observe_container(r) for r in env.receivers] != snaps:
                 why = 'a receiver / argument container changed'
+            if why is None and 'own_data=True' not in name:
+                for c in env.held:
+                    if env.was_w[id(c)][0] and not c.flags.writeable:
+                        why = 'the call set flags.writeable = False on a caller array (a caller array is either already read-only or copied)'
             for r in env.receivers:
                 w = [p for p, a, _ in walk_arrays(r) if a.flags.writeable]
                 if w and why is None:
@@ -2772,11 +2809,148 @@ def _containers_in(obj, path='r', out=None, depth=0):
     return out
 
 
+# =============================================================================== caller isolation: columns that are VIEWS of larger writeable arrays
+def isolation_cases(ctx):
+    '''Every array-taking route, each pass-through option (consolidate_blocks, own_data excluded as ownership transfer) at both settings, with
+    the arrays supplied as views of larger writeable base arrays and as owning arrays, adjacent dtypes equal and differing.  After the call:
+    the caller's arrays keep their flags, no array of the result overlaps the caller's memory, and a write through the BASE arrays changes
+    neither the result nor containers derived from it.'''
+    import static_frame as sf
+    from static_frame.core.type_blocks import TypeBlocks
+
+    def supply(kind, dtypes):
+        '''[(column array, base array)] for the dtype pattern; kind: view-of-2d | view-sliced | owner | owner-with-earlier-view | fortran-view'''
+        out = []
+        for j, dt in enumerate(dtypes):
+            vals = (np.arange(4) + 10 * (j + 1)).astype(dt) if dt != 'U' else np.array([f'{j}{c}' for c in 'wxyz'])
+            if kind == 'view-of-2d':
+                base = np.empty((4, 3), dtype=vals.dtype)
+                base[:] = vals.reshape(4, 1)
+                col = base[:, 1]
+            elif kind == 'view-sliced':
+                base = np.concatenate([vals, vals])
+                col = base[2:6]
+                base[2:6] = vals
+            elif kind == 'fortran-view':
+                base = np.asfortranarray(np.tile(vals.reshape(4, 1), (1, 2)))
+                col = base[:, 0]
+            elif kind == 'owner-with-earlier-view':
+                col = vals.copy()
+                base = col[::-1]
+            else:
+                col = vals.copy()
+                base = col
+            out.append((col, base))
+        return out
+
+    def write_bases(pairs):
+        for col, base in pairs:
+            if base.flags.writeable:
+                if base.dtype.kind == 'U':
+                    base[...] = 'ZZ'
+                elif base.dtype.kind == 'b':
+                    base[...] = ~base
+                else:
+                    base[...] = base + 100
+
+    L = ('a', 'b', 'c')
+    routes = []      # (name, has consolidate option, builder(cols, kw) -> container)
+    routes.append(('Frame.from_items(zip(labels, arrays))', True, lambda cols, kw: sf.Frame.from_items(zip(L, cols), **kw)))
+    routes.append(('FrameGO.from_items(zip(labels, arrays))', True, lambda cols, kw: sf.FrameGO.from_items(zip(L, cols), **kw)))
+    routes.append(('Frame.from_dict({label: array})', True, lambda cols, kw: sf.Frame.from_dict(dict(zip(L, cols)), **kw)))
+    routes.append(('Frame.from_fields(arrays, columns=)', True, lambda cols, kw: sf.Frame.from_fields(cols, columns=L[:len(cols)], **kw)))
+    routes.append(('FrameHE.from_fields(arrays)', True, lambda cols, kw: sf.FrameHE.from_fields(cols, **kw)))
+    routes.append(('Frame.from_records(array rows)', True, lambda cols, kw: sf.Frame.from_records([c for c in cols], **kw)))
+    routes.append(('Frame.from_records_items((label, array))', True, lambda cols, kw: sf.Frame.from_records_items(zip(L, cols), **kw)))
+    routes.append(('Frame.from_concat((Frame(col2d) ...), axis=1)', True, lambda cols, kw: sf.Frame.from_concat([sf.Frame(c.reshape(4, 1), columns=(L[i],)) for i, c in enumerate(cols)], axis=1, **kw)))
+    routes.append(('Frame.from_structured_array(np.rec.fromarrays)', True, lambda cols, kw: sf.Frame.from_structured_array(np.rec.fromarrays(cols, names=list(L[:len(cols)])), **kw)))
+    routes.append(('Frame.from_items(...).unset_index(consolidate_blocks=)', True, lambda cols, kw: sf.Frame.from_items(zip(L, cols)).unset_index(**kw)))
+    routes.append(('Frame.from_items(...).astype / astype[cols](dtype, consolidate_blocks=)', True, lambda cols, kw: sf.Frame.from_items(zip(L, cols)).astype[L[0]:L[1]](cols[0].dtype, **kw)))
+    routes.append(('TypeBlocks.from_blocks(arrays)', False, lambda cols, kw: TypeBlocks.from_blocks(cols)))
+    routes.append(('TypeBlocks.from_blocks(TypeBlocks.consolidate_blocks(arrays))', False, lambda cols, kw: TypeBlocks.from_blocks(TypeBlocks.consolidate_blocks(cols))))
+    routes.append(('TypeBlocks.from_blocks(arrays).consolidate()', False, lambda cols, kw: TypeBlocks.from_blocks(cols).consolidate()))
+    routes.append(('FrameGO; g[label] = array', False, lambda cols, kw: _go_setitem(sf, cols, L)))
+    routes.append(('FrameGO.extend_items((label, array))', False, lambda cols, kw: _go_extend_items(sf, cols, L)))
+    routes.append(('Series(array) / Index(array) / Frame(array2d view)', False, lambda cols, kw: (sf.Series(cols[0]), sf.Index(cols[0]), sf.Frame(cols[0].reshape(4, 1)), sf.Series(cols[0], index=cols[-1]) if len(set(cols[-1].tolist())) == 4 else None)))
+    routes.append(('Series.from_items / from_concat / Frame.from_series(Series(array))', False, lambda cols, kw: (sf.Series.from_concat([sf.Series(c) for c in cols], index=sf.IndexAutoFactory) if len({c.dtype for c in cols}) == 1 else None,
+                                                                                                                       sf.Frame.from_series(sf.Series(cols[0], name='n')), sf.Frame.from_concat([sf.Series(c, name=L[i]) for i, c in enumerate(cols)], axis=1))))
+    routes.append(('IndexHierarchy.from_index_items / Frame(index=array, columns=)', False, lambda cols, kw: (sf.Frame(np.zeros((4, 2)), index=cols[0]), sf.IndexHierarchy.from_product(('a',), cols[0]), sf.Index(cols[0]).union(cols[0][::-1]))))
+    patterns = [('equal-equal-equal', (np.int64, np.int64, np.int64)), ('int-float-int', (np.int64, np.float64, np.int64)), ('int-int-float', (np.int64, np.int64, np.float64)),
+                ('float-int-int', (np.float64, np.int64, np.int64)), ('int-str-bool', (np.int64, 'U', np.bool_)), ('single', (np.int64,)), ('uint8-uint8-int', (np.uint8, np.uint8, np.int64))]
+    kinds = ['view-of-2d', 'view-sliced', 'fortran-view', 'owner', 'owner-with-earlier-view']
+    for rname, has_opt, build in routes:
+        for pname, dtypes in patterns:
+            for kind in kinds:
+                for kw in (({}, {'consolidate_blocks': True}, {'consolidate_blocks': False}) if has_opt else ({},)):
+                    pairs = supply(kind, dtypes)
+                    cols = [c for c, _ in pairs]
+                    flags0 = [bool(c.flags.writeable) for c in cols]
+                    text = f'{rname} {kw or ""} ; columns: {kind}, dtypes {pname}'
+                    try:
+                        out = build(cols, dict(kw))
+                    except Exception as ex:  # noqa: a route that does not accept this pattern (still: the caller's arrays must be untouched)
+                        out = None
+                        raised = type(ex).__name__
+                    else:
+                        raised = None
+                    why = None
+                    if [bool(c.flags.writeable) for c in cols] != flags0:
+                        why = 'the call changed flags.writeable of a caller array (a caller array is either already read-only or copied)'
+                    conts = [x for _, x in _containers_in(out)] if out is not None else []
+                    if isinstance(out, TypeBlocks):
+                        conts = [out]
+                    derived = []
+                    for c in conts:
+                        try:
+                            if isinstance(c, sf.Frame):
+                                derived += [c.iloc[1:, :], c.iloc[:, 0], c.to_frame_he(), c.T]
+                            elif isinstance(c, sf.Series):
+                                derived += [c.iloc[1:], c.to_frame()]
+                            elif isinstance(c, TypeBlocks):
+                                derived += [c.copy(), c._extract(row_key=slice(1, None))]
+                        except Exception:  # noqa
+                            pass
+                    if why is None:
+                        for c in conts:
+                            for apath, a, _ in walk_arrays(c):
+                                if a.flags.writeable:
+                                    why = f'array at {apath} of the result is writeable'
+                                for col, base in pairs:
+                                    if np.may_share_memory(a, base) and np.shares_memory(a, base):
+                                        why = f'array at {apath} of the result shares memory with the caller base array'
+                                if why:
+                                    break
+                            if why:
+                                break
+                    before = [observe_container(c) for c in conts + derived]
+                    write_bases(pairs)
+                    if why is None and [observe_container(c) for c in conts + derived] != before:
+                        why = 'a write through the base arrays after the call shows through the container or one derived from it'
+                    ctx.count('isolation:' + ('raised' if raised else 'built'))
+                    yield Case('api:caller-isolation', {'route': rname, 'options': kw, 'columns': kind, 'dtypes': pname, 'raised': raised},
+                               py_fail=None if why is None else f'{text} : {why}', tags={'check': 'caller-isolation', 'route': rname, 'columns': kind, 'dtypes': pname},
+                               nontrivial=raised is None and kind != 'owner', key=f'iso|{rname}|{pname}|{kind}|{sorted(kw.items())}')
+
+
+def _go_setitem(sf, cols, L):
+    g = sf.FrameGO(index=range(4))
+    for lab, c in zip(L, cols):
+        g[lab] = c
+    return (g, g.to_frame())
+
+
+def _go_extend_items(sf, cols, L):
+    g = sf.FrameGO(index=range(4))
+    g.extend_items(zip(L, cols))
+    return (g, g.to_frame())
+
+
 def cases(ctx):
     # the enumeration starts with the 'large' phase (PositionsAllocator regrows): every later stratum runs in a process whose shared
     # positions array has been replaced, which is the state a long-lived user process is in
     yield from enumeration_cases(ctx)
     yield from regression_cases(ctx)
+    yield from isolation_cases(ctx)
     yield from route_cases(ctx)
     yield from grow_cases(ctx)
     yield from heap_cases(ctx)
